@@ -14,13 +14,16 @@ import (
 	"fmt"
 	"net/http"
 	"net/url"
+	"slices"
 	"strings"
+	"sync/atomic"
 	"testing"
 	"time"
 
 	jose "github.com/go-jose/go-jose/v4"
 
 	"github.com/zitadel/oidc/v3/pkg/crypto"
+	"github.com/zitadel/oidc/v3/pkg/oidc"
 	"github.com/zitadel/oidc/v3/pkg/op"
 
 	"verif/harness/engine"
@@ -48,8 +51,27 @@ var hosts = []string{rig.Host, "b.example"}
 
 func issuerOf(host int) string { return "https://" + hosts[host] }
 
+// newCfg: the rig's clients plus the two grant registrations it lacks. With web / webjwt
+// (exchange + refresh) and norefresh (neither) all four combinations of the token-exchange
+// and refresh_token grants exist.
+func newCfg() *refstore.Config {
+	cfg := rig.DefaultConfig()
+	mk := func(id string, grants ...oidc.GrantType) {
+		cfg.Clients[id] = &refstore.Client{ID: id, Secret: secretOf(id), Redirects: []string{"https://rp.example/cb"},
+			AppType: op.ApplicationTypeWeb, Method: oidc.AuthMethodBasic, RespTypes: []oidc.ResponseType{oidc.ResponseTypeCode}, Grants: grants}
+	}
+	mk("xonly", oidc.GrantTypeCode, oidc.GrantTypeTokenExchange) // exchange, no refresh
+	mk("ronly", oidc.GrantTypeCode, oidc.GrantTypeRefreshToken)  // refresh, no exchange
+	return cfg
+}
+
+func hasGrant(client string, g oidc.GrantType) bool {
+	cl := registered[client]
+	return cl != nil && slices.Contains(cl.Grants, g)
+}
+
 func newRig(caps refstore.Caps) *rig.Rig {
-	return rig.MustNew(rig.Opts{Caps: &caps, IssuerFn: op.IssuerFromHost("")})
+	return rig.MustNew(rig.Opts{Cfg: newCfg(), Caps: &caps, IssuerFn: op.IssuerFromHost("")})
 }
 
 // hreq builds a request addressed to virtual host `host`.
@@ -81,6 +103,7 @@ type world struct {
 	act map[string]*tok // actor alphabet
 	// private_key_jwt client assertions of client "jwt" (audience: both issuers)
 	assertion, assertionForged string
+	maxJournal                 atomic.Int64 // vetoes part: longest journal of a fault-free exchange seen
 }
 
 func secretOf(client string) string { return "secret-" + client }
@@ -160,7 +183,7 @@ func build(t *testing.T, c *engine.Check) *world {
 		tr := r.Do(0, hreq(host, "POST", "/oauth/token", url.Values{"grant_type": {"authorization_code"}, "code": {code}, "redirect_uri": {cl.Redirects[0]}},
 			map[string]string{"Authorization": rig.Basic(client, secretOf(client))}))
 		f := &family{client: client, user: user, host: host, at: tr.Str("access_token"), rt: tr.Str("refresh_token"), idt: tr.Str("id_token")}
-		if tr.Status != 200 || f.at == "" || f.rt == "" || f.idt == "" {
+		if tr.Status != 200 || f.at == "" || (f.rt == "") == hasGrant(client, oidc.GrantTypeRefreshToken) || f.idt == "" {
 			fail = fmt.Sprintf("token response for %s: %d %s", name, tr.Status, tr.Body)
 			return
 		}
@@ -209,6 +232,7 @@ func build(t *testing.T, c *engine.Check) *world {
 		issue("revrt-webjwt", "webjwt", "u1")
 		issue("actrev-webjwt", "webjwt", "u2")
 		issue("term-web2", "web2", "u2")
+		issue("xonly", "xonly", "u1")
 		issueAt("b-webjwt", "webjwt", "u1", 1)
 		issueAt("b-act-webjwt", "webjwt", "u2", 1)
 		endSession("term-web2")
@@ -313,6 +337,7 @@ func build(t *testing.T, c *engine.Check) *world {
 		mk("rt-web", "web", "rt", "live"),
 		mk("idt", "webjwt", "idt", "live"),
 		mk("idt-web", "web", "idt", "live"),
+		mk("at-xonly", "xonly", "at", "live"), // of the client registered for the exchange but not for the refresh_token grant
 		// issued under the second virtual host (issuer https://b.example)
 		mk("jwt-at-b", "b-webjwt", "at", "live"),
 		mk("idt-b", "b-webjwt", "idt", "live"),
